@@ -1564,3 +1564,14 @@ Proof.
     rewrite <- (permute_unpermute p n Hp c1 L1), <- (permute_unpermute p n Hp c2 L2), Hu.
     reflexivity.
 Qed.
+
+(* since the repair ee30907: a slice with a negative step on any axis is refused, whatever the
+   other slices are *)
+Corollary ap_S_negative_step_refused a len sl j sz st en sp :
+  length (str a) = length (shp a) ->
+  nth_error (shp a) j = Some sz -> nth_error sl j = Some (Some (st, en, sp)) -> sp < 0 ->
+  ap_S a len sl = Err.
+Proof.
+  intros Hl Hs Hj Hneg. apply ap_S_rejects; [exact Hl|].
+  right. exists j, sz, st, en, sp. split; [exact Hs|]. split; [exact Hj|]. lia.
+Qed.
